@@ -35,10 +35,20 @@ type Closure struct {
 type Bad struct{}
 
 // TimeV is the abstract model of time.Time: nanoseconds since the Unix epoch as a
-// 64-bit term, or the zero Time (year 1). The zero flag is always concrete.
+// 64-bit term, or the zero Time (year 1). The zero flag is always concrete. Loc is the
+// (concrete) location the value carries: 0 UTC (a nil loc pointer: Time{}, UTC(),
+// In(time.UTC)), 1 Local (time.Unix, time.Now, Local()), 2 any other location. Instants
+// compare by NS only (Equal, Before, ...); the Go operator == on time.Time also compares
+// the location, which is the classic defect of comparing instants with ==.
 type TimeV struct {
 	NS   *term.T
 	Zero bool
+	Loc  uint8
+	// Pre: the zero Time plus a non-zero duration (an instant in the years 1..293, far below
+	// the range of NS). Only its identity as "some instant long before every modelled one"
+	// is kept: it can be passed around, converted between zones and compared with modelled
+	// instants; anything else on it is unsupported.
+	Pre bool
 }
 
 // SymStr is a string whose bytes may be symbolic; its length is concrete.
@@ -440,10 +450,10 @@ func (m *Machine) equals(t types.Type, x, y Value) *term.T {
 		return m.tb.BoolC(x == y.(*Chan))
 	case TimeV:
 		yt := y.(TimeV)
-		if x.Zero || yt.Zero {
-			return m.tb.BoolC(x.Zero == yt.Zero)
+		if x.Loc != yt.Loc {
+			return m.tb.False() // == compares the location pointer too
 		}
-		return m.tb.Eq(x.NS, yt.NS)
+		return m.timeInstantEq(x, yt)
 	case Struct:
 		yt := y.(Struct)
 		st := t.Underlying().(*types.Struct)
@@ -587,14 +597,17 @@ func (m *Machine) ckey(sb *strings.Builder, v Value) bool {
 		fmt.Fprintf(sb, "c%p;", v)
 		return true
 	case TimeV:
+		if v.Pre {
+			return false
+		}
 		if v.Zero {
-			sb.WriteString("tz;")
+			fmt.Fprintf(sb, "tz%d;", v.Loc)
 			return true
 		}
 		if !v.NS.IsConst() {
 			return false
 		}
-		fmt.Fprintf(sb, "t%x;", v.NS.C)
+		fmt.Fprintf(sb, "t%x.%d;", v.NS.C, v.Loc)
 		return true
 	case Iface:
 		if v.T == nil {
@@ -853,6 +866,9 @@ func (m *Machine) show(v Value) string {
 		}
 		return fmt.Sprintf("&%p", v)
 	case TimeV:
+		if v.Pre {
+			return "time(zero+d)"
+		}
 		if v.Zero {
 			return "time.Time{}"
 		}
